@@ -269,3 +269,54 @@ def helper_scopes(prog, f: FuncInfo, depth: int = 1):
                         out.append((h, ren2)); nxt.append((h, ren2))
         frontier = nxt
     return out
+
+
+BUILTIN_EXC_BASES = {'ValueError': ['ValueError', 'Exception'], 'KeyError': ['KeyError', 'LookupError', 'Exception'], 'IndexError': ['IndexError', 'LookupError', 'Exception'],
+                     'TypeError': ['TypeError', 'Exception'], 'RuntimeError': ['RuntimeError', 'Exception'], 'AssertionError': ['AssertionError', 'Exception'],
+                     'NotImplementedError': ['NotImplementedError', 'RuntimeError', 'Exception'], 'ZeroDivisionError': ['ZeroDivisionError', 'ArithmeticError', 'Exception'],
+                     'AttributeError': ['AttributeError', 'Exception'], 'Exception': ['Exception'], 'OverflowError': ['OverflowError', 'ArithmeticError', 'Exception'],
+                     'StopIteration': ['StopIteration', 'Exception'], 'LookupError': ['LookupError', 'Exception'], 'ArithmeticError': ['ArithmeticError', 'Exception'],
+                     'UnicodeError': ['UnicodeError', 'ValueError', 'Exception'], 'OSError': ['OSError', 'Exception']}
+
+
+def raised_types(prog, f, st: ast.Raise):
+    """Names of the exception classes a `raise X(...)` statement's exception is an instance of: the class itself, the project
+    classes it derives from and the built-in chain (`class GrammarError(ValueError)` -> ['GrammarError', 'ValueError', 'Exception']);
+    None when the raised expression is not a class or a call of one (a re-raise, a variable)."""
+    e = st.exc
+    if e is None:
+        return None
+    if isinstance(e, ast.Call):
+        e = e.func
+    name = e.id if isinstance(e, ast.Name) else e.attr if isinstance(e, ast.Attribute) else None
+    if name is None:
+        return None
+    out, seen = [], set()
+    work = [name]
+    while work:
+        n = work.pop(0)
+        if n in seen:
+            continue
+        seen.add(n)
+        if n in BUILTIN_EXC_BASES:
+            out += [x for x in BUILTIN_EXC_BASES[n] if x not in out]
+            continue
+        cands = [c for c in prog.all_classes() if c.name == n]
+        if not cands:
+            return None if not out else out
+        out.append(n)
+        for b in cands[0].node.bases:
+            bn = b.id if isinstance(b, ast.Name) else b.attr if isinstance(b, ast.Attribute) else None
+            if bn:
+                work.append(bn)
+    return out
+
+
+def check_raise_type(rep, rule: str, prog, f, st: ast.Raise, want: str, what: str) -> None:
+    ts = raised_types(prog, f, st)
+    if ts is None:
+        rep.ob(rule, f.fq(), f"{what}: raises {want}", f.loc(st), True, 'the raised object is not a class expression (re-raise or variable): not decided here')
+        return
+    rep.ob(rule, f.fq(), f"{what}: raises {want}", f.loc(st), want in ts,
+           f"raises {ts[0]}" + (f" (a {want})" if ts[0] != want and want in ts else '') if want in ts else
+           f"raises {ts[0]} ({' -> '.join(ts)}), which is not a {want}: callers that handle the documented {want} no longer see the rejection")
